@@ -375,7 +375,11 @@ func stripMeta(doc any) (any, any, bool) {
 
 // compareRecord checks the data of an ok/upd/new reply against the document the model
 // holds for the key. Returns "" if equal, else an explanation.
-func compareRecord(data []byte, want any) string {
+func compareRecord(data []byte, want any) string { return compareRecordKey(data, want, "") }
+
+// compareRecordKey additionally checks the metadata section against the model: the
+// record is reported under its own key and a record that is handed out is not deleted.
+func compareRecordKey(data []byte, want any, key string) string {
 	if len(data) == 0 || data[0] != 'J' {
 		return fmt.Sprintf("data does not start with the JSON format identifier: %q", clip(string(data), 80))
 	}
@@ -387,8 +391,17 @@ func compareRecord(data []byte, want any) string {
 	if !has {
 		return "record came back without the _meta section"
 	}
-	if _, ok := meta.(map[string]any); !ok {
+	mm, ok := meta.(map[string]any)
+	if !ok {
 		return fmt.Sprintf("_meta section is not an object: %v", meta)
+	}
+	if key != "" {
+		if k, ok := mm["Key"].(string); !ok || k != key {
+			return fmt.Sprintf("_meta.Key is %q, the record's key is %q", fmt.Sprint(mm["Key"]), key)
+		}
+		if dl, ok := mm["Deleted"].(json.Number); ok && dl != "0" {
+			return fmt.Sprintf("_meta.Deleted is %s for a record that was not deleted (key %q)", dl, key)
+		}
 	}
 	ws, _, _ := stripMeta(want)
 	if !jsonEqual(gs, ws) {
